@@ -150,16 +150,17 @@ class PolyphaseFilterbank(object):
         X_pfb : array
             Post-FFT complex voltages
         """
-        if cache:
-            # Cache last section of data, which is excluded in PFB step
-            if self.cache is not None:
-                x = xp.concatenate([self.cache, x])
-            self.cache = x[-self.num_taps*self.num_branches:].copy()
+        if cache and self.cache is not None:
+            x = xp.concatenate([self.cache, x])
         
-        x = pfb_frontend(x, self.window, self.num_taps, self.num_branches)
-        X_pfb = xp.fft.fft(x, 
+        x_fir = pfb_frontend(x, self.window, self.num_taps, self.num_branches)
+        X_pfb = xp.fft.fft(x_fir, 
                            self.num_branches,
                            axis=1)[:, 0:self.num_branches//2] / self.num_branches**0.5
+        if cache:
+            # Cache last section of data, which is excluded in PFB step. Only once the call has 
+            # gone through: a refused input (not an array, too short) must not enter the stream
+            self.cache = x[-self.num_taps*self.num_branches:].copy()
         return X_pfb
     
     
